@@ -602,6 +602,10 @@ def handle (toks : List String) : String :=
     match tyName ty, parseIntList a, parseIntList b, parseIntList c with
     | some ty, some a, some b, some c => if valid ty a && valid ty b && valid ty c then tri1Line ty a b c else "bad-op"
     | _, _, _, _ => "bad-op"
+  -- element types whose == is not bit equality and whose order is partial (double, float, a padded struct): the harness
+  -- compares the wrapper's operators with the built-in / element-wise ones (`transparent_*`, `std_equal_*`,
+  -- `lexicographical_compare_*` are generic in the element type); nothing depends on an input
+  | ["fpchk", k] => if k ∈ ["std", "stf", "rvd", "rvp", "cont"] then "ok" else "bad-op"
   | ["wrap", x] =>
     match x.toInt? with
     | some x => if IntTy.i32.inRange x then wrapLine x else "bad-op"
